@@ -25,7 +25,7 @@ ENGINES = {
     "reload": dict(
         path="harness/core_reload.go (with harness/core_types.go core_drive.go core_gen.go core_emit.go) coq/Core/Reload*.v coq/Oracles/CoreC16.v coq/Props/C16.v",
         about="histories of SI requests, scheduling cycles and frequent configuration reloads against the real ClusterContext; queue trees of all configurations and queue properties per state handed to Coq; reload/cleaning model recomputed from every observed pre-state and compared, C16 predicates evaluated on the observations",
-        n=dict(quick=40, thorough=160), shards=dict(quick=1, thorough=6), search_shards=2,
+        n=dict(quick=20, thorough=120), shards=dict(quick=1, thorough=6), search_shards=2,
         kinds={}, classify=_classify, index_div=1000,
     ),
 }
